@@ -16,7 +16,7 @@ func init() {
 		"non-trivial = not the all-valid document; distinct = (source hash, document)"
 }
 
-var c11Devs = []string{"LEN_BYTES", "REQUIRED_UNDECLARED_IGNORED", "ANYOF_MERGED_FIELD_TYPES", "ALLOF_FIRST_WINS", "COMPOSITE_DEF_REF_IS_ANY", "REF_UNTYPED_DEF_IS_ANY", "ALLOF_MERGE_MUTATES_SHARED_DEFINITION"}
+var c11Devs = []string{"LEN_BYTES", "REQUIRED_UNDECLARED_IGNORED", "ANYOF_MERGED_FIELD_TYPES", "ALLOF_FIRST_WINS", "COMPOSITE_DEF_REF_IS_ANY", "REF_UNTYPED_DEF_IS_ANY", "ALLOF_MERGE_MUTATES_SHARED_DEFINITION", "NULL_FIRST_OBJECT_BRANCHES_ARE_ANY"}
 
 type c11Branch struct {
 	props []string
@@ -164,6 +164,12 @@ func c11(ctx *Ctx) {
 				if len(l) <= 2 {
 					sites = append(sites, site{"item", J{"type": "object", "properties": J{"a": J{"type": "array", "items": cs}}, "required": A{"a"}}, []any{"a", 0}})
 				}
+				if len(l) == 2 {
+					// a *typed* definition that carries the composite, referred to twice
+					tcs := space.Clone(cs)
+					tcs["type"] = "object"
+					sites = append(sites, site{"def-typed", J{"type": "object", "properties": J{"d": J{"$ref": "#/$defs/C"}, "d2": J{"$ref": "#/$defs/C"}}, "required": A{"d"}, "$defs": J{"C": tcs}}, []any{"d"}})
+				}
 				if ctx.Level >= 1 && len(l) <= 2 {
 					sites = append(sites,
 						site{"nested", J{"type": "object", "properties": J{"n": J{"type": "object", "properties": J{"c": cs}, "required": A{"c"}}}, "required": A{"n"}}, []any{"n", "c"}},
@@ -200,6 +206,41 @@ func c11(ctx *Ctx) {
 	shared, sharedDocs := c11Shared(ctx.Level)
 	runBehaviour(ctx, behaviour{Name: "shared", Cases: shared, Devs: c11Devs, Values: true,
 		DocGen: func(sc *SCase, m *refmodel.Model) []refmodel.Doc { return sharedDocs[sc.ID] }})
+	// branches that are nullable objects, in both spellings of the type list, inline and by reference
+	var nb []SCase
+	for _, comp := range []string{"allOf", "anyOf"} {
+		for ti, types := range [][2]any{{A{"object", "null"}, A{"object", "null"}}, {A{"null", "object"}, A{"null", "object"}}, {A{"object", "null"}, "object"}, {A{"null", "object"}, "object"}, {"object", A{"null", "object"}}} {
+			for _, ref := range []bool{false, true} {
+				b0 := J{"type": types[0], "properties": J{"a": J{"type": "string"}, "n": J{"type": "integer", "minimum": 1}}}
+				b1 := J{"type": types[1], "properties": J{"b": J{"type": "boolean"}}}
+				if comp == "anyOf" {
+					b0["required"] = A{"a"}
+					b1["required"] = A{"b"}
+				}
+				root := J{"type": "object", "properties": J{"c": J{comp: A{b0, b1}}, "k": J{"type": "string"}}}
+				if ref {
+					root["properties"].(J)["c"] = J{comp: A{J{"$ref": "#/$defs/B0"}, b1}}
+					root["$defs"] = J{"B0": b0}
+				}
+				id := fmt.Sprintf("C11/nullable-branches/%s/types=%d/ref=%v", comp, ti, ref)
+				nb = append(nb, SCase{ID: id, Schema: root, Cfg: baseCfg(), Axes: map[string]string{"pos": "nullable-branches", "leaf": fmt.Sprintf("%s/%d", comp, ti), "composite": comp}})
+			}
+		}
+	}
+	runBehaviour(ctx, behaviour{Name: "nullable-branches", Cases: nb, Devs: c11Devs,
+		DocGen: func(sc *SCase, m *refmodel.Model) []refmodel.Doc {
+			var out []refmodel.Doc
+			n := func(s string) any { return jsonv.MustParse(s) }
+			for i, c := range []any{map[string]any{"a": "x", "n": n("7"), "b": true}, nil, "absent", map[string]any{"a": n("5"), "b": true}, map[string]any{"a": "x", "n": n("0"), "b": true}, map[string]any{"a": "x", "b": "no"}, "str", n("3"), []any{}} {
+				o := map[string]any{"k": "v"}
+				if c != "absent" {
+					o["c"] = c
+				}
+				cls := []string{"base", "null", "absent", "wrongtype(a)", "violating(n)", "wrongtype(b)", "not-an-object:string", "not-an-object:number", "not-an-object:array"}[i]
+				out = append(out, refmodel.Doc{V: o, Text: jsonv.Text(o), Class: cls})
+			}
+			return out
+		}})
 	ctx.Run.Assume("branches are object schemas over three properties with fixed, identical property schemas (no two branches constrain the same property differently in the quick tier)",
 		"documents spell integers without fraction/exponent")
 }
@@ -307,6 +348,14 @@ func c11Shared(level int) ([]SCase, map[string][]refmodel.Doc) {
 									class = "base"
 								}
 								ds = append(ds, refmodel.Doc{V: o, Text: jsonv.Text(o), Class: class})
+								if ix == 1 && iy == 1 {
+									// the property only the *other* list declares (o: integer), with a value of another type, under each of x, y, z
+									for _, where := range []string{"x", "y", "z"} {
+										f := jsonv.Clone(o).(map[string]any)
+										f[where].(map[string]any)["o"] = "not-an-integer"
+										ds = append(ds, refmodel.Doc{V: f, Text: jsonv.Text(f), Class: fmt.Sprintf("foreign-property(%s,z:%s)", where, cls[iz])})
+									}
+								}
 							}
 						}
 					}
